@@ -93,7 +93,9 @@ fn subscription(flavour: Flavour, n_ext: usize, out: &mut CaseOut) {
         for _ in 0..n {
             t += times[draw(times.len() as u32) as usize];
             ev_id += 1;
-            events.push(SubEvent { at: t, ch: *ch, item: Some(SubItem::Node(ev_id)) });
+            // now and then the source itself yields an error item instead of an event object
+            let item = if chance(1, 10) { SubItem::Err(ev_id) } else { SubItem::Node(ev_id) };
+            events.push(SubEvent { at: t, ch: *ch, item: Some(item) });
             per_channel.entry(*ch).or_default().push(ev_id);
         }
         let end_gap = [0u64, 1, 50][draw(3) as usize];
@@ -253,7 +255,10 @@ fn subscription(flavour: Flavour, n_ext: usize, out: &mut CaseOut) {
                     return;
                 }
                 let exp = if exp_data.is_null() { J::Null } else { exp_data };
-                if data != exp {
+                // an error *item* of the source is not a field failure of an event: whether the
+                // response then has `data: null` or a null root field is not judged here
+                let source_error_item = own_log.iter().any(|e| matches!(e.kind, RKind::Failed(_)) && e.path == key);
+                if data != exp && !(source_error_item && (data.is_null() || data[&key].is_null())) {
                     out.viol("C27/wrong-data", format!("response for event {ev} of '{key}': data expected {exp} got {data}; {ctx}"));
                     return;
                 }
